@@ -54,7 +54,7 @@ pub fn random_case(r: &mut Rng, max_items: usize) -> Case {
   Case {
     op,
     script,
-    flavor: if r.chance(1, 3) { Flavor::Threads } else { Flavor::Local },
+    flavor: [Flavor::Local, Flavor::Threads, Flavor::Local, Flavor::LocalPool][r.below(4)],
     policy: if r.chance(1, 2) { Policy::Fifo } else { Policy::Any },
     late: r.chance(1, 3),
     seed: r.next(),
@@ -343,6 +343,9 @@ pub fn run(cfg: &Cfg, rep: &mut Report) {
     rep.evaluations += 1;
     let o = observe(&c);
     rep.set("operators_covered", &locus(&c));
+    if c.flavor == Flavor::LocalPool {
+      rep.count("runs_on_the_real_LocalPool", 1);
+    }
     if let Ok(obs) = &o {
       rep.events += obs.timed.len() as u64;
       let src_n = c.script.iter().filter(|(_, n)| !n.is_terminal()).count();
